@@ -24,7 +24,7 @@ def run(ctx):
     cov = {}
     if ctx.harness_ok:
         progs = []
-        for prof in ['alu', 'ssa', 'hazard', 'branch', 'loops', 'ldonly', 'mem', 'mixed', 'tail', 'shadow', 'touched', 'evict']:
+        for prof in ['alu', 'ssa', 'ssald', 'ssamem', 'hazard', 'branch', 'loops', 'ldonly', 'mem', 'mixed', 'tail', 'shadow', 'touched', 'evict']:
             for _ in range(n if prof != 'evict' else max(3, n // 8)):
                 progs.append(gen_program(rng, prof))
         # value-independence families: the same program from several initial data states
